@@ -114,6 +114,12 @@ CHECKS["C16"] = dict(
     note="Quick tier replays a factor-covering sample (about 190 images x 3 cycles, 120 TIFF, 250 updates, a quarter of the 4-file orders). TIFF: 1xN images have no spacing to store and depth 32 is undocumented: both outside the model.",
     ref="5 C16")
 
+CHECKS["C15"] = dict(
+    technique="TLA+ spec Serialize.tla (value kinds per constructor slot, normalisation on load, 1..3 cycles, file/stream) model-checked by TLC; every applicable kind vector replayed on a catalogue of the exported classes; models through the C11 ParamMap behaviours with a save/load step",
+    text="TLC enumerates all pairs of 21 value kinds (python float incl. 1e-300, 1e300, -0.0; int; complex; numpy float64/int64/complex128/float32 scalars; 0-d array; list, tuple, 1-d array, list of numpy scalars; explicit None; nested object; plain, arithmetic-derived, ufunc-derived and complex priors) x file/stream x 1..3 cycles with the normal form each kind must reload as, and checks idempotence and that explicit None is preserved. The applicable vectors are replayed on 28 catalogue entries (Sphere, LayeredSphere, Ellipsoid, Spheroid, Cylinder, Capsule, Bisphere, both Janus spheres, Spheres, Scatterers, RigidCluster, CSG, Uniform, Gaussian, BoundedGaussian, ComplexPrior, Mie, MieLens, AberratedMieLens, Multisphere, Lens, Tmatrix, LimitOverlaps, NmpfitStrategy, LeastSquaresScipyStrategy): same class, every constructor argument equal after normalisation, identical text from the second cycle on, library equality when arguments were lists/scalars. Models: 60-400 ParamMap behaviours (priors, sharing, ties) with a save/load at the end must keep names, ties and the value-to-place mapping; models with a theory parameter, per-channel optics, constraints, ExactModel.",
+    note="EmceeStrategy/TemperedStrategy/CmaStrategy and DDA need absent libraries at construction and are not covered (evidence.not_covered).",
+    ref="5 C15")
+
 NOT_APPLICABLE = []
 
 
